@@ -428,9 +428,38 @@ impl Monitor for C11 {
     fn streams(&self, tier: Tier) -> Vec<StreamSpec> {
         let mut s = tlv_streams(tier, 10_000);
         s.push(stream("c11-headers", tier.n(30, 300_000, 10_000_000)));
+        if tier != Tier::Miri {
+            s.push(spec::engine::exhaustive("c11-huge", 12));
+        }
         s
     }
     fn run_case(&self, stream: &str, idx: u64, seed: u64, rec: &mut Recorder) {
+        if stream == "c11-huge" {
+            // a section of 2 GiB .. 8 GiB (lazily zeroed): the first items are what the standard
+            // walk gives - a TLV with a one-byte value, then empty type-0 TLVs
+            if !spec::engine::huge_ok() {
+                return;
+            }
+            let size = spec::engine::HUGE_SIZES[idx as usize % spec::engine::HUGE_SIZES.len()];
+            let k = 1 + (idx as u8 % 200);
+            let front = [k, 0, 1, 0xAA, 0, 0, 0];
+            rec.case(spec::rng::mix(idx ^ 0x4711), true);
+            rec.event();
+            let r = spec::engine::with_huge(&front, size, |x| {
+                guard(|| {
+                    let mut it = v2::TypeLengthValues::from(x);
+                    let a = it.next().map(|r| r.map(|t| (t.kind, t.value.to_vec())).map_err(|e| format!("{:?}", e)));
+                    let b = it.next().map(|r| r.map(|t| (t.kind, t.value.to_vec())).map_err(|e| format!("{:?}", e)));
+                    (a, b)
+                })
+            });
+            match r {
+                None => rec.class("skipped:huge-allocation-refused", || size.to_string()),
+                Some(Ok((Some(Ok((ka, va))), Some(Ok((0, vb)))))) if ka == k && va == vec![0xAA] && vb.is_empty() => rec.class("oracle:multi-GiB-section", || format!("{} bytes", size)),
+                Some(other) => rec.violation("item-differs:from-slice", format!("huge:{}:{}", idx, seed), "huge-section".into(), format!("section of {} bytes starting with TLV ({}, [0xAA]) followed by zero bytes: the first two items are {:?}", size, k, other)),
+            }
+            return;
+        }
         if stream == "c11-headers" {
             let mut rng = Rng::for_case(seed, stream_id(stream), idx);
             let mut b = Vec::new();
